@@ -18,7 +18,7 @@ enum { Q_NWORKERS, Q_QSIZE, Q_PFIRST, Q_YIELD_PM, Q_SEED, Q_COMMON };
 #define COMMON_NAMES "nworkers", "queue_size", "parent_first", "yield_pm", "seed"
 
 static const long *P;
-#define MAXT 72
+#define MAXT 1100
 static myth_thread_t TH[MAXT];
 
 static void gen_common(mvsim_rng *r, long *p, long nthreads) {
@@ -48,8 +48,8 @@ static void join_all(int n) {
 /* ================================================================== */
 /* mutex (C04)                                                         */
 /* ================================================================== */
-enum { M_NTHREADS = Q_COMMON, M_NACQ, M_NMUTEX, M_TRY_PM, M_TIMED_PM, M_CS_POINTS, M_HELPER_PM, M_NP };
-static const char *const mutex_names[] = { COMMON_NAMES, "nthreads", "nacq", "nmutex", "try_pm", "timed_pm", "cs_points", "helper_pm" };
+enum { M_NTHREADS = Q_COMMON, M_NACQ, M_NMUTEX, M_TRY_PM, M_TIMED_PM, M_CS_POINTS, M_HELPER_PM, M_SPINNERS, M_NP };
+static const char *const mutex_names[] = { COMMON_NAMES, "nthreads", "nacq", "nmutex", "try_pm", "timed_pm", "cs_points", "helper_pm", "spinners" };
 static myth_mutex_t MX[4];
 static volatile int occ[4], interest[4];
 static volatile long enter_events[4], acq_count[4];
@@ -65,6 +65,9 @@ static void mutex_gen(mvsim_rng *r, long *p, int tier) {
   p[M_CS_POINTS] = mvh_range(r, 0, 3);
   p[M_HELPER_PM] = mvh_chance(r, 300) ? 300 : 0;
   gen_common(r, p, p[M_NTHREADS] * 2);
+  /* threads that spin on trylock WITHOUT yielding (legal: they occupy their worker, nothing else).  At most
+     nworkers-1 of them, so that one worker is always free to go idle and steal a descheduled holder. */
+  p[M_SPINNERS] = (p[Q_NWORKERS] >= 2 && mvh_chance(r, 350)) ? mvh_range(r, 1, p[Q_NWORKERS] - 1 > 3 ? 3 : p[Q_NWORKERS] - 1) : 0;
 }
 static void *helper_fn(void *a) { mvsim_user_point(); return a; }
 
@@ -77,6 +80,8 @@ static void *mutex_thread(void *arg) {
     int mode = 0;
     if ((int)((h >> 10) % 1000) < P[M_TRY_PM]) mode = 1;
     else if ((int)((h >> 24) % 1000) < P[M_TIMED_PM]) mode = 2;
+    int spinner = t < P[M_SPINNERS] && P[M_SPINNERS] <= P[Q_NWORKERS] - 1;
+    if (spinner) mode = 1;
     YIELD(h >> 3);
     if (mode == 0) {
       interest[m]++; enter_events[m]++;
@@ -95,7 +100,7 @@ static void *mutex_thread(void *arg) {
         MVH_CHECK(o0 > 0 || enter_events[m] != e0, "C04-TRYLOCK-SPURIOUS", "trylock reported EBUSY although no other thread was between lock and unlock during the call");
         interest[m]--;
         mvh_counter[mvh_counter_id("trylock_busy")]++;
-        myth_yield();
+        if (spinner) mvsim_user_point(); else myth_yield();
       }
     } else {
       interest[m]++; enter_events[m]++;
@@ -175,6 +180,11 @@ static void cond_gen(mvsim_rng *r, long *p, int tier) {
   p[C_ROUNDS] = mvh_range(r, 1, tier ? 30 : 10);
   p[C_SIGOUT] = mvh_chance(r, 500);   /* signal/broadcast after unlocking the mutex (legal idiom) */
   gen_common(r, p, 20);
+  /* occasionally a crowd at the gate (batching / counter-width boundaries in the wake-up path) */
+  if (mvh_chance(r, tier ? 60 : 30)) {
+    static const long crowd[] = { 31, 32, 33, 64, 65, 127, 128, 129, 255, 256, 257, 258, 300, 511, 512, 513, 1000 };
+    p[C_SHAPE] = 1; p[C_NWAIT] = mvh_pick(r, crowd, 17); p[Q_QSIZE] = 2 * p[C_NWAIT] + 64; p[Q_YIELD_PM] = 100;
+  }
 }
 #define ENTER_CS() do { c_occ++; MVH_CHECK(c_occ == 1, "C05-MUTEX-HELD", "thread is inside the monitor without holding the mutex exclusively (occupancy %d)", c_occ); } while (0)
 #define LEAVE_CS() do { c_occ--; } while (0)
@@ -278,6 +288,7 @@ static void cond_run(const long *p, mvsim_runcfg *cfg, mvsim_runstats *st) {
   bcount = bhead = btail = 0; c_occ = 0; gate_open = gate_waiting = gate_released = 0; turn = 0;
   void_flag = void_returns = void_early = 0; consumed_total = produced_total = 0;
   memset(seen_item, 0, sizeof seen_item);
+  if (p[C_SHAPE] == 1 && p[C_NWAIT] > 16) { cfg->budget1 += 400UL * (uint64_t)p[C_NWAIT]; cfg->budget2 += 4000UL * (uint64_t)p[C_NWAIT]; }
   wl_begin(cfg, p[Q_NWORKERS], 32, p[Q_QSIZE], (int)p[Q_PFIRST]);
   myth_mutex_init(&cm, 0); myth_cond_init(&c_not_full, 0); myth_cond_init(&c_not_empty, 0); myth_cond_init(&c_gate, 0);
   switch (p[C_SHAPE]) {
@@ -291,7 +302,7 @@ static void cond_run(const long *p, mvsim_runcfg *cfg, mvsim_runstats *st) {
       break;
     }
     case 1: {
-      int n = (int)p[C_NWAIT];
+      int n = (int)p[C_NWAIT]; if (n > MAXT - 2) n = MAXT - 2;
       spawn_all(n, gate_waiter);
       for (;;) {   /* opener: wait (politely) until all waiters are inside wait */
         myth_mutex_lock(&cm); ENTER_CS();
